@@ -26,6 +26,8 @@ TU = "scriptplan/_cython/time_utils_cy.pyx"
 MP = "scriptplan/parser/macro_processor.py"
 
 MUTANTS = [
+    # ------------------------------------------------------------------ revert of repaired defect F69 (C12)
+    ("c12_scenarios_scheduled_again", "C12", [(PJ, "            if scIdx in self._scheduledScenarios:\n                continue\n            self._scheduledScenarios.add(scIdx)\n", "")]),
     # ------------------------------------------------------------------ reverts of repaired defects F66, F67, F68 (C19)
     ("c19_file_name_quoted_in_temp_copy", "C19", [(PL, "            f.write(\"# Copy of the input with an auto-report added by plan CLI\\n\\n\")", "            f.write(f\"# Original file: {tjp_path}\\n\")\n            f.write(\"# Auto-report added by plan CLI\\n\\n\")")]),
     ("c19_probe_oserror_unmapped", "C19", [(PL, "    try:\n        exists = path.exists()\n        is_file = exists and path.is_file()\n    except OSError as e:\n        raise FileNotFoundError(f\"File not found: {tjp_path} ({e})\") from e\n", "    exists = path.exists()\n    is_file = exists and path.is_file()\n")]),
